@@ -513,7 +513,7 @@ func cmdRun(args []string) int {
 		infra += fmt.Sprintf("cannot decide: %d of %d workloads have no usable fault-free baseline (round trip itself is broken; see C06)\n", acc.Unusable, acc.Runs)
 	}
 	var missing []string
-	if *tier == "thorough" && exit == 0 && budget >= 1 {
+	if *tier == "thorough" && exit == 0 && budget >= 1 && !acc.Truncated {
 		for _, pr := range p.Probes() {
 			if acc.Counters[pr] == 0 {
 				missing = append(missing, pr)
